@@ -248,6 +248,15 @@ namespace
 
   unsigned long g_api_reads = 0;
 
+  // "deep" serialisation (run ... deep=1): the facts the CLI needs to print a
+  // value -- a DIE's raw attributes, an attribute's label and values, the
+  // operations of a location expression -- obtained from the library by the
+  // same sub-queries the documentation describes, for vf/props/c19.py to render
+  // independently.  g_depth: 0 for a value on the yielded stack, >0 when nested.
+  bool g_deep = false;
+  int g_depth = 0;
+  std::string deep_list (value const &v, char const *query, bool whole_stack);
+
   void
   api_bad (char const *what, std::string const &detail)
   {
@@ -403,11 +412,13 @@ namespace
       {
 	ss << "\"t\":\"q\",\"v\":[";
 	bool first = true;
+	++g_depth;
 	for (auto const &e: *q->get_seq ())
 	  {
 	    ss << (first ? "" : ",") << ser_value (*e);
 	    first = false;
 	  }
+	--g_depth;
 	ss << "]";
       }
     else if (v.is <value_closure> ())
@@ -419,7 +430,15 @@ namespace
       ss << "\"t\":\"cu\",\"o\":" << cu->get_offset ()
 	 << ",\"raw\":" << (cu->is_raw () ? "true" : "false");
     else if (auto d = value::as <value_die> (&v))
-      ss << "\"t\":\"die\"," << ser_die_ident (*d);
+      {
+	ss << "\"t\":\"die\"," << ser_die_ident (*d);
+	if (g_deep)
+	  {
+	    ss << ",\"lbl\":" << deep_list (v, "label", false);
+	    if (g_depth == 0)
+	      ss << ",\"attrs\":" << deep_list (v, "raw attribute", false);
+	  }
+      }
     else if (auto a = value::as <value_attr> (&v))
       {
 	Dwarf_Attribute at = a->get_attr ();
@@ -427,6 +446,9 @@ namespace
 	   << ",\"form\":" << dwarf_whatform (&at)
 	   << ",\"raw\":" << (a->is_raw () ? "true" : "false")
 	   << ",\"die\":{" << ser_die_ident (a->get_value_die ()) << "}";
+	if (g_deep)
+	  ss << ",\"lbl\":" << deep_list (v, "label", false)
+	     << ",\"vals\":" << deep_list (v, "value", false);
       }
     else if (auto le = value::as <value_loclist_elem> (&v))
       {
@@ -441,6 +463,8 @@ namespace
 	       << op.offset << "]";
 	  }
 	ss << "]";
+	if (g_deep)
+	  ss << ",\"elems\":" << deep_list (v, "elem", false);
       }
     else if (auto lo = value::as <value_loclist_op> (&v))
       {
@@ -448,6 +472,8 @@ namespace
 	ss << "\"t\":\"llo\",\"atom\":" << (unsigned) op->atom
 	   << ",\"n1\":\"" << op->number << "\",\"n2\":\"" << op->number2
 	   << "\",\"o\":" << op->offset;
+	if (g_deep)
+	  ss << ",\"props\":" << deep_list (v, "(offset, label, value)", false);
       }
     else if (auto as = value::as <value_aset> (&v))
       {
@@ -467,6 +493,8 @@ namespace
 	   << "\",\"info\":" << (unsigned) s.st_info
 	   << ",\"other\":" << (unsigned) s.st_other
 	   << ",\"shndx\":" << (unsigned) s.st_shndx;
+	if (g_deep)
+	  ss << ",\"props\":" << deep_list (v, "(label, binding, visibility)", false);
       }
     else if (auto au = value::as <value_abbrev_unit> (&v))
       {
@@ -516,6 +544,54 @@ namespace
   std::map <std::string, zw_result *> g_results;
   std::map <std::string, zw_value *> g_values;
   std::map <std::string, zw_stack *> g_stacks; // input stacks kept for C12
+
+  // JSON array of the serialised TOS of every stack QUERY yields on <V>.
+  std::string
+  deep_list (value const &v, char const *query, bool)
+  {
+    std::string out = "[";
+    bool saved = g_deep;
+    ++g_depth;
+    zw_error *err = nullptr;
+    zw_query *q = zw_query_parse (g_voc, query, &err);
+    zw_stack *in = q != nullptr ? zw_stack_init (&err) : nullptr;
+    if (in != nullptr && zw_stack_push (in, &v, &err))
+      if (zw_result *r = zw_query_execute (q, in, &err))
+	{
+	  bool first = true;
+	  while (true)
+	    {
+	      zw_stack *o = nullptr;
+	      zw_error *e2 = nullptr;
+	      if (! zw_result_next (r, &o, &e2))
+		{
+		  out += std::string (first ? "" : ",") + "{\"t\":\"err\",\"msg\":"
+		    + jstr (e2 != nullptr ? zw_error_message (e2) : "?") + "}";
+		  if (e2 != nullptr)
+		    zw_error_destroy (e2);
+		  break;
+		}
+	      if (o == nullptr)
+		break;
+	      if (zw_stack_depth (o) > 0)
+		{
+		  out += (first ? "" : ",") + ser_value (*zw_stack_at (o, 0));
+		  first = false;
+		}
+	      zw_stack_destroy (o);
+	    }
+	  zw_result_destroy (r);
+	}
+    if (err != nullptr)
+      zw_error_destroy (err);
+    if (in != nullptr)
+      zw_stack_destroy (in);
+    if (q != nullptr)
+      zw_query_destroy (q);
+    --g_depth;
+    g_deep = saved;
+    return out + "]";
+  }
 
   typedef std::map <std::string, std::string> args_t;
 
@@ -880,7 +956,9 @@ namespace
       }
 
     bool ended, errored;
+    g_deep = arg (a, "deep") == "1";
     std::string res = pull (r, max, &ended, &errored, &msg);
+    g_deep = false;
     set_fuel (0);
     uint64_t used = fuel_used () - f0;
 
